@@ -20,6 +20,8 @@ Ops ==
   (IF "Nid" \in Enabled THEN NidOps ELSE {}) \cup
   (IF "Prev" \in Enabled THEN PrevOps ELSE {}) \cup
   (IF "Tamper" \in Enabled THEN TamperOps ELSE {}) \cup
+  (IF "KeyKind" \in Enabled THEN KeyKindOps ELSE {}) \cup
+  (IF "Strip" \in Enabled THEN StripOps ELSE {}) \cup
   (IF "Fetch" \in Enabled THEN FetchReqsN ELSE {}) \cup
   (IF "Rotate" \in Enabled THEN RotateOps ELSE {})
 
